@@ -1298,6 +1298,9 @@ fn pump(env: &mut Env, r: &mut Report, limit: usize) -> bool {
     true
 }
 
+static C14_NUMBERS: std::sync::atomic::AtomicBool =
+    std::sync::atomic::AtomicBool::new(false);
+
 /// Decodes the published TA manifest / CRL and checks the numbers.
 fn observe_numbers(env: &mut Env, r: &mut Report, must_exist: bool) {
     let Some(ta) = env.w.ta_cert() else { return };
@@ -1321,6 +1324,22 @@ fn observe_numbers(env: &mut Env, r: &mut Report, must_exist: bool) {
         r.inconclusive("unparsable manifest / CRL number");
         return
     };
+    // Run as an auxiliary shard of the C14 check (`--c14-numbers 1`): the
+    // published trust-anchor manifest and CRL carry the same number, also
+    // after a signing session with an operator-chosen manifest number.
+    if C14_NUMBERS.load(std::sync::atomic::Ordering::Relaxed) {
+        r.eval();
+        r.count("c14_ta_number_agreements", 1);
+        r.nontrivial(format!("c14-ta-numbers|jump={}",
+            env.acct.last_mft.map(|(_, n)| mft_nr > n + 1).unwrap_or(false)));
+        if mft_nr != crl_nr {
+            r.violation(
+                "c14:ta-manifest-and-crl-number-differ",
+                &format!("the published trust-anchor manifest has number                           {mft_nr}, the CRL it lists has number {crl_nr}"),
+                json!({"episode": env.idx, "round": env.round, "log": env.log}),
+            );
+        }
+    }
     for (what, bytes, nr, last) in [
         ("manifest", &mft_bytes, mft_nr, &mut env.acct.last_mft),
         ("crl", &crl_bytes, crl_nr, &mut env.acct.last_crl),
@@ -1641,7 +1660,10 @@ fn round(env: &mut Env, r: &mut Report, rng: &mut Rng, args: &Args) -> bool {
         && env.round == 1 && prev_nr < u64::MAX;
     let nr_override = if boundary {
         Some(u64::MAX)
-    } else if rng.chance(1, 4) && prev_nr < u64::MAX - 64 {
+    } else if rng.chance(1, if C14_NUMBERS.load(
+        std::sync::atomic::Ordering::Relaxed) { 2 } else { 4 })
+        && prev_nr < u64::MAX - 64
+    {
         Some(prev_nr + 1 + rng.below(30))
     } else { None };
     let resp = match env.s1.process(&honest_req, nr_override) {
@@ -1949,6 +1971,8 @@ fn episode(r: &mut Report, args: &Args, idx: u64, seed: u64) {
 fn main() {
     let args = Args::parse();
     let mut r = Report::new("C15", &args);
+    let c14 = args.extra_u64("c14-numbers", 0) == 1;
+    C14_NUMBERS.store(c14, std::sync::atomic::Ordering::Relaxed);
     if args.replay.is_some() {
         println!("replay: C15 witnesses are re-run by seed: use --seed/--shard");
         r.write();
